@@ -89,6 +89,7 @@ type world struct {
 	it       *cloudprovider.InstanceType
 	faults   *faultPlan
 	buffer   map[string]int
+	hold     map[int]bool // nodes whose API changes the informers have not delivered to cluster state yet
 }
 
 // faultPlan: API calls the interceptor fails (each entry fires as often as its count says).
@@ -105,6 +106,7 @@ func newWorld(now int64) *world {
 		recorder: test.NewEventRecorder(), pools: map[int]*v1.NodePool{}, claims: map[int]*v1.NodeClaim{}, nodes: map[int]*corev1.Node{}}
 	w.faults = &faultPlan{patchNode: map[string]int{}}
 	w.buffer = map[string]int{}
+	w.hold = map[int]bool{}
 	w.c = kit.NewClient(interceptor.Funcs{
 		List: func(ctx context.Context, c client.WithWatch, list client.ObjectList, opts ...client.ListOption) error {
 			if _, ok := list.(*v1.NodePoolList); ok && !w.faults.suspended && w.faults.listNodePools > 0 {
@@ -314,6 +316,9 @@ func ptr[T any](x T) *T { return &x }
 
 // refresh re-delivers the API objects of node id to the cluster state (after the harness edited them).
 func (w *world) refresh(id int) {
+	if w.hold[id] {
+		return
+	}
 	if nc, ok := w.claims[id]; ok {
 		cur := &v1.NodeClaim{}
 		if err := w.c.Get(w.ctx, client.ObjectKeyFromObject(nc), cur); err == nil {
